@@ -6,7 +6,7 @@
    cut-off (and reached), how long its job list was when its turn came, and how many items were dispatched.
    All theorems hold for EVERY state (not only reachable ones), every behaviour table, every environment. *)
 Require Import ZArith List Bool Lia.
-Require Import Verif.gen.Consts_loop Verif.LoopModel Verif.LoopProofs_C10 Verif.LoopProofs_C10w Verif.LoopProofs_C10b.
+Require Import Verif.gen.Consts_loop Verif.LoopModel Verif.LoopProofs_C10 Verif.LoopProofs_C10w Verif.LoopProofs_C10b Verif.LoopProofs_C10c.
 Import ListNotations.
 Open Scope Z_scope.
 
@@ -80,6 +80,19 @@ Theorem C10_admitted_every_three : forall beh e1 e2 e3 es rs st st' rs' ts p,
   exists t1 t2 t3 rest, ts = t1 :: t2 :: t3 :: rest /\ 1 <= admitted_count [t1; t2; t3] p.
 Proof. exact admitted_every_three. Qed.
 
+(* no sleeping on queued work (every behaviour table): in every state reachable by a history the three todo counters add up to
+   the number of items on the three job lists ([dd] = their difference); a full turn hands the next one a remaining_todo that
+   is at least the number of items still queued; hence the next epoll_wait is called with timeout 0 while anything is queued *)
+Theorem C10_todo_counts_queued : forall f beh h rnd, dd (run_history_fx f beh h rnd) = 0.
+Proof. exact dd_all_histories. Qed.
+Theorem C10_remaining_covers_queue : forall beh e rs st st' rs' ti, iteration beh e rs st = (st', rs', ti) ->
+  dd st' = dd st /\ (ti_returned ti = false -> dd st = 0 -> qsum st' <= r_remaining rs').
+Proof. exact iteration_dd. Qed.
+Theorem C10_no_sleep_on_queued_work : forall beh e1 e2 rs st st1 rs1 t1,
+  dd st = 0 -> iteration beh e1 rs st = (st1, rs1, t1) -> ti_returned t1 = false -> 0 < qsum st1 ->
+  ti_timeout (snd (iteration beh e2 rs1 st1)) = 0.
+Proof. exact no_sleep_on_queued_work. Qed.
+
 (* opportunities: within every turn the admitted levels are upward closed (a level is admitted together with
    every higher one), hence over any span HIGH >= MED >= LOW; over three consecutive turns exactly 3 : 2 : 1 *)
 Theorem C10_opportunities_turn : forall beh e rs st st' rs' ti p q,
@@ -113,6 +126,9 @@ Print Assumptions C10_no_starvation_all_behaviours.
 Print Assumptions C10_no_starvation.
 Print Assumptions C10_bounded_wait.
 Print Assumptions C10_admitted_every_three.
+Print Assumptions C10_todo_counts_queued.
+Print Assumptions C10_remaining_covers_queue.
+Print Assumptions C10_no_sleep_on_queued_work.
 Print Assumptions C10_opportunities_turn.
 Print Assumptions C10_opportunities_321.
 Print Assumptions C10_example_window.
